@@ -591,6 +591,14 @@ func (fg *FG) evalModEntry(x *SExpr, env *Env, src string) []modEntry {
 			mv, _ := fg.mapFamilies(mt)
 			return []modEntry{{loc: &Loc{Kind: LCell, Heap: mv, Ref: s.T}, src: src}}
 		}
+		if pt, isP := types.Unalias(s.Ty).Underlying().(*types.Pointer); isP {
+			if arr, isA := types.Unalias(pt.Elem()).Underlying().(*types.Array); isA {
+				// pointer to an array: all its elements
+				fam, srt := fg.elemFamily(arr.Elem())
+				fg.heapSort[fam] = srt
+				return []modEntry{{loc: &Loc{Kind: LElem, Heap: fam, Ref: s.T, Ty: arr.Elem()}, elems: true, lo: "0", hi: fmt.Sprint(arr.Len()), src: src}}
+			}
+		}
 		sl, ok := types.Unalias(s.Ty).Underlying().(*types.Slice)
 		if !ok {
 			fg.fail("modifies elems(%s): not a slice or map", x.Args[0])
@@ -615,7 +623,19 @@ func (fg *FG) evalModEntry(x *SExpr, env *Env, src string) []modEntry {
 			case "CH_closed":
 				fg.heapSort[fam] = "(Array Int Bool)"
 			default:
-				fg.fail("modifies family(%s): unknown family", fam)
+				// a ghost family that has not been used yet: materialise it from its declaration
+				if strings.HasPrefix(fam, "G_any_") {
+					if ty, ok := fg.g.ct.GhostFields["any."+strings.TrimPrefix(fam, "G_any_")]; ok {
+						t, srt := env.resolveType(ty)
+						if t != nil {
+							srt = fg.sorts.sortOf(t)
+						}
+						fg.heapSort[fam] = "(Array Int " + srt + ")"
+					}
+				}
+				if _, ok := fg.heapSort[fam]; !ok {
+					fg.fail("modifies family(%s): unknown family", fam)
+				}
 			}
 		}
 		return []modEntry{{loc: &Loc{Kind: LCell, Heap: fam, Ref: "0"}, all: true, src: src}}
